@@ -7,7 +7,7 @@ import itertools
 import socket
 import struct
 
-from vf.harness import use_world, outcome, freeze, sample
+from vf.harness import use_world, outcome, freeze, sample, guarded
 from vf.simk.world import World, FD
 
 ID = "C11"
@@ -230,7 +230,7 @@ def worker(chunk):
     w, pa, pb = mk_world(seed)
     use_world(w)
     w.logging = False
-    return [run_case(c, (w, pa, pb)) for c in cases]
+    return [guarded(run_case, c, (w, pa, pb)) for c in cases]
 
 
 # ---------------------------------------------------------------- F part
@@ -382,5 +382,5 @@ def replay(ctx, case):
         return {"violated": bool(r["bad"]), "viols": r["bad"]}
     w, pa, pb = mk_world(ctx.seed)
     use_world(w)
-    bad = run_case(case, (w, pa, pb))
+    bad = guarded(run_case, case, (w, pa, pb))
     return {"violated": bool(bad), "viols": bad}
